@@ -213,8 +213,8 @@ func init() {
 					}
 					err := cl.WaitStable(d)
 					// cluster clients cache the routing table (refreshed once a minute): the reads that follow use a
-					// fresh one
-					if cl.cc != nil {
+					// fresh one ("c":"keepcc" keeps the client that was created before the membership change)
+					if cl.cc != nil && op.C != "keepcc" {
 						cl.cc.Close(context.Background())
 						cl.cc = nil
 					}
